@@ -110,19 +110,34 @@ def addo(p, q):
 
 
 class Terms(dict):
-    """{(p, q): coefficient}"""
+    """{(p, q): coefficient}; `.mag` carries, per key, the sum of |contributions| accumulated while the
+    expression was built (so the condition scale does not benefit from cancellations between terms
+    that an implementation may well evaluate separately)."""
+
+    def __init__(self, *a, **k):
+        super().__init__(*a, **k)
+        self.mag = {key: abs(v) for key, v in self.items()}
+
+    def _copy(self):
+        out = Terms(self)
+        out.mag = dict(self.mag)
+        return out
 
     def __add__(self, other):
-        out = Terms(self)
+        out = self._copy()
         for k, v in other.items():
             out[k] = out.get(k, 0.0) + v
+        for k, v in other.mag.items():
+            out.mag[k] = out.mag.get(k, 0.0) + v
         return out
 
     def __sub__(self, other):
         return self + other * (-1.0)
 
     def __mul__(self, c):
-        return Terms({k: v * c for k, v in self.items()})
+        out = Terms({k: v * c for k, v in self.items()})
+        out.mag = {k: v * abs(c) for k, v in self.mag.items()}
+        return out
 
     __rmul__ = __mul__
 
@@ -133,6 +148,9 @@ class Terms(dict):
         for (p, q), v in self.items():
             for k in ((addo(p, ei), q), (p, addo(q, ei))):
                 out[k] = out.get(k, 0.0) + v
+        for (p, q), v in self.mag.items():
+            for k in ((addo(p, ei), q), (p, addo(q, ei))):
+                out.mag[k] = out.mag.get(k, 0.0) + v
         return out
 
     def maxorder(self):
@@ -192,8 +210,13 @@ def evaluate(terms, ev, gamma):
     for (p, q), c in terms.items():
         if c == 0:
             continue
-        vp, mp_ = ev.deriv(p)
-        vq, mq = ev.deriv(q)
+        vp, _ = ev.deriv(p)
+        vq, _ = ev.deriv(q)
         val = val + c * np.einsum("ab,ap,bp->p", gamma, vp, vq)
-        mag = mag + abs(c) * np.einsum("ab,ap,bp->p", ag, mp_, mq)
+    for (p, q), c in terms.mag.items():
+        if c == 0:
+            continue
+        _, mp_ = ev.deriv(p)
+        _, mq = ev.deriv(q)
+        mag = mag + c * np.einsum("ab,ap,bp->p", ag, mp_, mq)
     return val, mag
